@@ -167,9 +167,17 @@ func VerifResize() {
 			}
 		}
 		if round == 2 {
-			if ps, aerr := tx.AllocN(3); aerr == nil {
-				for _, p := range ps {
+			nAlloc := 3
+			if newMax > oldMax {
+				nAlloc = int(oldMax) - int(oldExtent) + 6 // reach beyond the limit (and the mapping) the file had before it grew
+			}
+			if ps, aerr := tx.AllocN(nAlloc); aerr == nil {
+				for k, p := range ps {
 					s.checkOwnership(w, p.ID())
+					if k < len(ps)-3 {
+						w.pages = append(w.pages, refPage{id: p.ID(), raw: true})
+						continue
+					}
 					b0, b1 := s.content()
 					verifAssert(p.SetBytes(verifBuf(b0, b1, b1)) == nil, "SetBytes succeeds")
 					w.pages = append(w.pages, refPage{id: p.ID(), b0: b0, b1: b1, last: b1})
